@@ -63,32 +63,41 @@ def symbolOf (taxa : List String) (seqs : List (String × List Char)) (name : St
   let names := (sortSeqs taxa seqs).map (·.1)
   if name ∈ names then p[names.idxOf name]? else none
 
-/-! ### `NucleotideDataType` -/
+/-! ### `NucleotideDataType` (functions of the code point `ord(string)`) -/
 
 /-- `NUCLEOTIDE_STATES[ord(string)]` (`IndexError` beyond the table = `none`) -/
-def nucEncoding (c : Char) : Option Nat := TTGen.C01.nucStates[c.toNat]?
+def nucEncodingCode (o : Nat) : Option Nat := TTGen.C01.nucStates[o]?
 
 /-- `NucleotideDataType.partial(string, use_ambiguities)` -/
-def nucPartial (useAmb : Bool) (c : Char) : Option (List Nat) :=
-  if !useAmb && !(TTGen.C01.nucPlain.contains c) then some (List.replicate 4 1)
-  else match nucEncoding c with
+def nucPartialCode (useAmb : Bool) (o : Nat) : Option (List Nat) :=
+  if !useAmb && !(TTGen.C01.nucPlain.contains o) then some (List.replicate 4 1)
+  else match nucEncodingCode o with
     | some e => TTGen.C01.nucAmbig[e]?
     | none => none
 
 /-- `clamp(encoding(c), max=state_count)` of `compress_alignment_states` -/
-def nucTipState (c : Char) : Option Nat := (nucEncoding c).map fun e => min e TTGen.C01.nucStateChars.length
+def nucTipStateCode (o : Nat) : Option Nat :=
+  (nucEncodingCode o).map fun e => min e TTGen.C01.nucStateChars.length
+
+def nucEncoding (c : Char) : Option Nat := nucEncodingCode c.toNat
+def nucPartial (useAmb : Bool) (c : Char) : Option (List Nat) := nucPartialCode useAmb c.toNat
+def nucTipState (c : Char) : Option Nat := nucTipStateCode c.toNat
 
 /-! ### `AminoAcidDataType` -/
 
-def aaEncoding (c : Char) : Option Nat := TTGen.C01.aaStates[c.toNat]?
+def aaEncodingCode (o : Nat) : Option Nat := TTGen.C01.aaStates[o]?
 
-def aaPartial (useAmb : Bool) (c : Char) : Option (List Nat) :=
-  if !useAmb && !(TTGen.C01.aaPlain.contains c) then TTGen.C01.aaAmbig.getLast?
-  else match aaEncoding c with
+def aaPartialCode (useAmb : Bool) (o : Nat) : Option (List Nat) :=
+  if !useAmb && !(TTGen.C01.aaPlain.contains o) then TTGen.C01.aaAmbig.getLast?
+  else match aaEncodingCode o with
     | some e => TTGen.C01.aaAmbig[e]?
     | none => none
 
-def aaTipState (c : Char) : Option Nat := (aaEncoding c).map fun e => min e TTGen.C01.aaStateChars.length
+def aaTipStateCode (o : Nat) : Option Nat :=
+  (aaEncodingCode o).map fun e => min e TTGen.C01.aaStateChars.length
+
+def aaPartial (useAmb : Bool) (c : Char) : Option (List Nat) := aaPartialCode useAmb c.toNat
+def aaTipState (c : Char) : Option Nat := aaTipStateCode c.toNat
 
 /-- tip vector of a one-character symbol -/
 def symPartial (aa : Bool) (useAmb : Bool) : Sym → Option (List Nat)
